@@ -15,7 +15,7 @@ from symv.hooks import Hooks
 
 META = {
     "level": "exploration",
-    "level_text": "Four monitors. (1) Hook on the fuse-plan cache: every plan handed out (hit or miss) equals a fresh uncached computation, and every lru_cache'd helper equals its uncached function, while families of arrays that differ in exactly one attribute (direction, block size, charge label, missing sector, sub-index structure behind an equal outer table, symmetry over equal labels, class kind, grouping, conj after the hash key was memoised) are visited in random orders with cache sizes {1,2,3,8192} and sector limits {1,512}; each result is also judged by the C05 placement oracle. (2) Black-box differential: one op list evaluated cold (cache off, all caches cleared before each op), warm, evicting, and in fresh subprocesses with SYMMRAY_FUSE_CACHE_MAXSIZE in {0,1,unset,junk} x MAXSECTORS in {1,unset}: digests identical. (3) default_tensordot_mode: nested, left normally and through exceptions (including a failing contraction), set_default(None) no-op; the global is read back after each. (4) 4-16 threads run out-of-place fuse/reshape/contraction/svd/transpose on shared arrays with cache size 2, a 1e-6 s switch interval and yields injected at 5% of executed library lines; every result digest must equal the sequential reference, no thread may raise, shared operands are unchanged. Verdicts are on logical results only; counters of hits, evictions, injected switches, distinct switch sites and interleaving signatures are reported.",
+    "level_text": "Five monitors. (1) Hook on the fuse-plan cache: every plan handed out (hit or miss) equals a fresh uncached computation, and every lru_cache'd helper equals its uncached function, while families of arrays that differ in exactly one attribute (direction, block size, charge label, missing sector, sub-index structure behind an equal outer table, symmetry over equal labels, class kind, grouping, conj after the hash key was memoised) are visited in random orders with cache sizes {1,2,3,8192} and sector limits {1,512}; each result is also judged by the C05 placement oracle. (2) Black-box differential: one op list evaluated cold (cache off, all caches cleared before each op), warm, evicting, and in fresh subprocesses with SYMMRAY_FUSE_CACHE_MAXSIZE in {0,1,unset,junk} x MAXSECTORS in {1,unset}: digests identical. (3) default_tensordot_mode: nested, left normally and through exceptions (including a failing contraction), set_default(None) no-op; the global is read back after each. (4) 4-16 threads run out-of-place fuse/reshape/contraction/svd/transpose on shared arrays with cache size 2, a 1e-6 s switch interval and yields injected at 5% of executed library lines; every result digest must equal the sequential reference, no thread may raise, shared operands are unchanged. (5) The repository's own test suite is run once with the hooks of (1) attached (pytest plugin), as one more history. Verdicts are on logical results only; counters of hits, evictions, injected switches, distinct switch sites and interleaving signatures are reported.",
     "technique": "runtime monitoring: internal state hook (cached vs recomputed plan), differential digests across cache configurations / histories / processes, thread stress with injected yields vs sequential reference",
     "rule": (
         "evaluations = hooked plan comparisons + differential op comparisons + mode-context checks + thread-run op comparisons. Non-trivial = a fuse-plan cache HIT served while a near-identical sibling populated / occupies the cache "
@@ -23,7 +23,7 @@ META = {
     ),
     "anchors": ["abelian_core.cached_fuse_block_info", "abelian_core.calc_fuse_block_info", "abelian_core.BlockIndex.hashkey", "abelian_core.SubIndexInfo.hashkey", "abelian_core.default_tensordot_mode", "abelian_core.set_default_tensordot_mode"],
     "floors": {
-        "quick": {"evaluations": 8000, "distinct_nontrivial": 300, "tables": {"hook/plan-compared": 3000, "hook/plan-cache-hit": 800, "m2/configs-compared": 6, "m2/subprocess-configs": 8, "m3/context-checks": 200, "m4/ops-compared": 1500, "m4/injected-switches": 5000, "m4/switches-in-fuse-path": 1000, "m1/evictions": 100}},
+        "quick": {"evaluations": 8000, "distinct_nontrivial": 300, "tables": {"hook/plan-compared": 3000, "hook/plan-cache-hit": 800, "m2/configs-compared": 6, "m2/subprocess-configs": 8, "m3/context-checks": 200, "m4/ops-compared": 1500, "m4/injected-switches": 5000, "m4/switches-in-fuse-path": 1000, "m1/evictions": 100, "m5/repo-tests:plan-compared": 200}},
         "thorough": {"evaluations": 100000, "distinct_nontrivial": 3000, "tables": {"m4/injected-switches": 100000, "m4/switches-in-fuse-path": 20000}},
     },
     "wall": {"quick": 115, "thorough": 1700},
@@ -330,7 +330,43 @@ def monitor4(ctx, hooks, seed, nthreads, nops, rounds):
     ctx.sample({"monitor": "threads", "threads": nthreads, "ops": len(ops), "rounds": rounds, "injected_switches": inj.count, "switches_in_fuse_path": inj.in_fuse, "distinct_switch_sites": len(inj.sites), "mismatches": len(mism), "exceptions": len(errors)}, limit=2)
 
 
+def monitor5_repo_tests(ctx):
+    """The repository's own test suite as a workload for hooks H1/H2 (one shard only)."""
+    import glob
+
+    from symv.load import REPO
+
+    verif = os.path.dirname(os.path.dirname(os.path.abspath(__file__)))
+    tests = os.path.join(REPO, "tests")
+    if not os.path.isdir(tests):
+        ctx.count("m5", "no-tests-dir")
+        return
+    prefix = os.path.join(verif, ".work", f"c15plugin-{os.getpid()}")
+    os.makedirs(os.path.dirname(prefix), exist_ok=True)
+    env = dict(os.environ, PYTHONPATH=f"{verif}{os.pathsep}{REPO}", SYMV_REPO=REPO, SYMV_PLUGIN_OUT=prefix, PYTHONDONTWRITEBYTECODE="1")
+    sel = [] if not ctx.quick else ["-k", "fuse or tensordot or reshape or svd or qr"]
+    try:
+        p = subprocess.run([sys.executable, "-m", "pytest", "-q", "-x", "-p", "no:cacheprovider", "-p", "symv.pytest_plugin", "-n", "2", *sel, tests], cwd=REPO, env=env, capture_output=True, text=True, timeout=600)
+    except subprocess.TimeoutExpired:
+        ctx.inconc("repo-tests-timeout")
+        return
+    files = glob.glob(prefix + ".*.json")
+    for f in files:
+        rep = json.load(open(f))
+        os.remove(f)
+        for k, v in rep["tables"].get("hook", {}).items():
+            ctx.count("m5", f"repo-tests:{k}", v)
+        ctx.evaluated(rep["tables"].get("hook", {}).get("plan-compared", 0))
+        for v in rep["violations"]:
+            ctx.violation(v["mech"], "while running the repository's own tests: " + v["msg"], v.get("witness"))
+    ctx.count("m5", "repo-test-runs")
+    ctx.notes["repo_tests_tail"] = p.stdout.strip().splitlines()[-1][:200] if p.stdout.strip() else p.stderr[-200:]
+
+
 def run(ctx):
+    if ctx.shard == 0 and ctx.only is None:
+        ctx.cur = ("repo-tests", 0)
+        ctx.run_case(monitor5_repo_tests, ctx)
     hooks = Hooks(ctx)
     hooks.install_plan_hook()
     hooks.install_lru_hooks()
